@@ -95,7 +95,7 @@ def s2(tier):
                     out.append(Prog(o, (cs, CallSpec((), 0, (), cs.va, cs.vk)), ctx, 'global', None))
                     continue
                 for route in grammar.ROUTES:
-                    if ctx == 'result_attr' and route == 'partial':
+                    if ctx == 'result_attr' and route in ('partial', 'partial_helper'):
                         continue        # a partial object has no attribute every callee result has
                     if ctx == 'ifelse_same':
                         # the same callee object on both branches, the second call writes one more keyword
